@@ -90,12 +90,17 @@ impl FileName {
             unreachable!()
         };
 
-        let has_src = relative_path
-            .components()
-            .filter(|c| !matches!(c, Component::Prefix(_) | Component::RootDir))
-            .nth(1)
-            .and_then(|c| c.as_os_str().to_str())
-            .is_some_and(|c| c == "src");
+        // `<mod dir>/<module>/src/..`: only the `src` directly below the directory of a module
+        // is dropped. A `src` directory somewhere below the working directory is a directory
+        // like any other; dropping a component there made `a/src/x.capy` and `b/src/x.capy`
+        // (both `src.x`) the same file as far as names go.
+        let has_src = is_mod
+            && relative_path
+                .components()
+                .filter(|c| !matches!(c, Component::Prefix(_) | Component::RootDir))
+                .nth(1)
+                .and_then(|c| c.as_os_str().to_str())
+                .is_some_and(|c| c == "src");
 
         let mut components = relative_path
             .components()
